@@ -258,22 +258,50 @@ pub fn check_case(c: &PackCase, l: &mut Local) -> Result<(), String> {
         (Err(e), true) => return Err(format!("the program completes a swap the reference walk refuses: {e}")),
     }
     // ---- (1) metamorphic: packagings and per-call supply variations that name every needed array
-    let cmp = |what: &str, o: &Outcome| -> Result<(), String> {
+    let cmp_with = |what: &str, o: &Outcome, same_window: bool| -> Result<(), String> {
         if o.ok != full.ok {
             return Err(format!("{what}: accepted={} but the reference packaging accepted={}", o.ok, full.ok));
         }
         if o.ok {
             let (p, q) = (o.pool.as_ref().unwrap(), full.pool.as_ref().unwrap());
-            if (o.paid, o.received, p.sqrt_price, p.tick_current_index, p.liquidity, p.fee_growth_global_a, p.fee_growth_global_b, p.protocol_fee_owed_a, p.protocol_fee_owed_b)
-                != (full.paid, full.received, q.sqrt_price, q.tick_current_index, q.liquidity, q.fee_growth_global_a, q.fee_growth_global_b, q.protocol_fee_owed_a, q.protocol_fee_owed_b)
+            // With a shorter window a swap that stops exactly on the window's edge tick (an uninitialized tick) records the
+            // same price with the tick index in the "shifted" representation (T-1 instead of T).  Both describe the same
+            // price and the same liquidity; the property only fixes the window-independent outcome for complete supplies.
+            let tick_equivalent = p.tick_current_index == q.tick_current_index
+                || (!same_window
+                    && p.sqrt_price == q.sqrt_price
+                    && (p.tick_current_index - q.tick_current_index).abs() == 1
+                    && sqrt_price_from_tick_index(p.tick_current_index.max(q.tick_current_index)) == p.sqrt_price
+                    && !full.ticks.contains_key(&p.tick_current_index.max(q.tick_current_index)));
+            if (o.paid, o.received, p.sqrt_price, p.liquidity, p.fee_growth_global_a, p.fee_growth_global_b, p.protocol_fee_owed_a, p.protocol_fee_owed_b)
+                != (full.paid, full.received, q.sqrt_price, q.liquidity, q.fee_growth_global_a, q.fee_growth_global_b, q.protocol_fee_owed_a, q.protocol_fee_owed_b)
+                || !tick_equivalent
                 || o.ticks != full.ticks
                 || o.crossed != full.crossed
             {
-                return Err(format!("{what}: outcome differs from the reference packaging (paid {} vs {}, received {} vs {})", o.paid, full.paid, o.received, full.received));
+                let mut parts = vec![];
+                if (o.paid, o.received) != (full.paid, full.received) {
+                    parts.push(format!("amounts ({}, {}) vs ({}, {})", o.paid, o.received, full.paid, full.received));
+                }
+                if (p.sqrt_price, p.tick_current_index, p.liquidity) != (q.sqrt_price, q.tick_current_index, q.liquidity) {
+                    parts.push(format!("price/tick/liquidity ({}, {}, {}) vs ({}, {}, {})", p.sqrt_price, p.tick_current_index, p.liquidity, q.sqrt_price, q.tick_current_index, q.liquidity));
+                }
+                if (p.fee_growth_global_a, p.fee_growth_global_b, p.protocol_fee_owed_a, p.protocol_fee_owed_b) != (q.fee_growth_global_a, q.fee_growth_global_b, q.protocol_fee_owed_a, q.protocol_fee_owed_b) {
+                    parts.push("fee accumulators".to_string());
+                }
+                if o.ticks != full.ticks {
+                    let d: Vec<i32> = o.ticks.iter().filter(|(t, v)| full.ticks.get(t) != Some(v)).map(|(t, _)| *t).collect();
+                    parts.push(format!("tick contents at {d:?} ({} vs {} initialized ticks)", o.ticks.len(), full.ticks.len()));
+                }
+                if o.crossed != full.crossed {
+                    parts.push(format!("crossed {:?} vs {:?}", o.crossed, full.crossed));
+                }
+                return Err(format!("{what}: outcome differs from the reference packaging: {}", parts.join("; ")));
             }
         }
         Ok(())
     };
+    let cmp = |what: &str, o: &Outcome| cmp_with(what, o, true);
     let mut packagings = 1;
     for (name, h) in &built[1..] {
         let arr = h.w.swap_arrays(h.pool, c.a_to_b);
@@ -296,7 +324,7 @@ pub fn check_case(c: &PackCase, l: &mut Local) -> Result<(), String> {
         for (what, supply) in [("first array only", [arr[0], arr[0], arr[0]]), ("first two arrays", [arr[0], arr[1], arr[1]]), ("first and third array", [arr[0], arr[2], arr[2]])] {
             let o = run_swap(h0, user, &sp, supply, &[], c.v2);
             if o.ok {
-                cmp(&format!("reduced supply ({what}) succeeded"), &o)?;
+                cmp_with(&format!("reduced supply ({what}) succeeded"), &o, false)?;
                 l.count("reduced_supply_still_sufficient");
             } else {
                 l.count("reduced_supply_refused");
